@@ -129,5 +129,23 @@ let statusspec_case (line : string) : string =
        | _ -> failwith "bad statusspec line")
   | _ -> failwith "bad statusspec line"
 
-let engines = [ "errmsg", run_case; "errmsg-spec", spec_case;
+(* end-to-end oracle: "<op> <status>,<msg>,<xmsg>": the contract of one public API return
+   (StatusModel.status_msg_ok; Properties_C16.C16_entry_point_contract) *)
+let apispec_case (line : string) : string =
+  match words line with
+  | [op; t] ->
+      (match split_on ',' t with
+       | [st; m; x] ->
+           let z = z_of_hex st in
+           if not (kdump_doc z) then "status " ^ st ^ " is not a member of the documented enumeration"
+           else if z <> BinNums.Z0 && m = "0" then "failure status " ^ st ^ " with an empty error string"
+           else if z = BinNums.Z0 && m = "1" then "success, but an error string is left behind"
+           else if not (status_msg_ok (z, m = "1")) then "contract broken"
+           else if z = BinNums.Z0 && x = "1" then
+             "success, but an error string is left behind in the translation context"
+           else "ok"
+       | _ -> if t = "?" then "ok" else "malformed answer " ^ t)
+  | _ -> "malformed line"
+
+let engines = [ "errmsg", run_case; "errmsg-spec", spec_case; "errmsg-apispec", apispec_case;
                 "errmsg-status", status_case; "errmsg-statusspec", statusspec_case ]
